@@ -16,22 +16,36 @@ TreeSequence.dump_text / tskit.load_text / tskit.parse_* / TableCollection.sort:
     documented defaults (population/individual -1, metadata empty, mutation time unknown, parent -1,
     location/parents empty).
 
+Audit pass (lib/props/AUDIT-C17.md): the same oracles are now reached through every documented CALL FORM
+(lib/props/c17_ext.py: dump_text keyword / positional / one table per call / complementary subsets / real files /
+write-only objects / the command line wrappers / a pickled copy; load_text keyword / positional / defaults / real
+files / byte streams / rewound objects; parse_* keyword / positional / defaults / source= / real files / a table
+that is written twice), on BOUNDARY values (doubles that need 17 significant digits in the str()-formatted
+columns and through `precision`, inf / nan / -0.0 locations, flags 2^31 and 2^32-1, metadata of every byte value
+and of 47..300 bytes, an empty or blank cell forced into the first / last column) and on EXTREME inputs (family
+`tiny`: zero nodes, one node, no edges, identical rows, whole ragged columns empty / empty only in the last or
+first row; family `big`: > 256 rows and ids in every table, > 256 mutations at a site, 300 parents, entries
+> 64 KiB).  Case families follow k mod 23 (a prime: every shard count sees every family).
+
 EITHER zones (not asserted):
   * order of migrations that tie on the documented sort key;
   * which exception type is raised by an insufficient `precision` (LibraryError or ValueError both fine),
     and whether such a dump loads at all;
-  * sequence_length inference is only asserted when the largest edge right end equals L;
+  * sequence_length inference (documented: the maximum right coordinate of the edges) is asserted when that
+    maximum equals L, and when it is smaller than L but every site and migration still fits below it; with no
+    edges and no sequence_length only "raises or returns" is noted;
+  * the sign of a -0.0 location and the payload of a nan location are not compared (nan must stay nan);
   * strict=False (whitespace) mode is not part of the statement.
 """
 import base64
-import io
 
 import tskit
 
 from lib import gen
 from lib.harness import case_rng
 from lib.model import NULL, RowModel, sorted_copy
-from lib.tsk import from_tables, to_tables, to_ts
+from lib.props import c17_ext as X
+from lib.tsk import rows_from_columns, to_tables, to_ts
 
 ID = "C17"
 
@@ -55,17 +69,52 @@ PARSERS = {
 }
 
 
+PERIOD = 23  # prime: with any number of shards every worker sees every family
+FAMILY = {5: "lowprec", 16: "lowprec", 2: "tiny", 13: "tiny", 9: "big"}
+
+
 def cases(tier, seed):
     n = 16000 if tier == "quick" else 600000
     for k in range(n):
-        r = k % 10
-        yield {"gen": "lowprec" if r == 9 else "rt", "k": k}
+        g = FAMILY.get(k % PERIOD, "rt")
+        if g == "big" and (k // PERIOD) % 3:
+            g = "rt"  # a big case costs ~8 ordinary ones: one in 69
+        yield {"gen": g, "k": k}
 
 
 # ----------------------------------------------------------------------------------- inputs
 
 
 def build(case):
+    """Input of a case.  Families tiny / big come from c17_ext; everything else is the forest walk below plus
+    boundary decorations in fixed shares of k (not left to chance)."""
+    k = case["k"]
+    if case["gen"] == "tiny":
+        rng = case_rng(case)
+        t = 2 * (k // PERIOD) + (k % PERIOD > 6)      # consecutive numbers over the tiny cases
+        nk = len(X.TINY_KINDS)
+        m = X.build_tiny(rng, X.TINY_KINDS[t % nk], t // nk * 3 + t % nk)
+        return rng, m
+    if case["gen"] == "big":
+        rng = case_rng(case)
+        m = X.build_big(rng, k // PERIOD)
+        return rng, m
+    rng, m = build_walk(case)
+    j = k // PERIOD + k  # runs through all residues of 2, 3, 4 inside every family
+    if j % 5 == 0:
+        X.column_patterns(rng, m, j // 5)      # whole ragged columns empty / empty only in the last row ...
+    if j % 4 == 1:
+        X.deco_nondyadic(rng, m, rng.choice([("time",), ("coords",), ("time", "coords")]))
+    elif j % 4 == 3 and any(t is not None for *_, t, _ in m.mutations):
+        X.deco_nondyadic(rng, m, ("time",))    # known mutation times are written with str(): 17 digits wanted
+    if j % 4 == 2:
+        X.deco_wide(rng, m)
+    if j % 3 == 0:
+        X.deco_repr_doubles(rng, m)
+    return rng, m
+
+
+def build_walk(case):
     rng = case_rng(case)
     big = rng.random() < 0.1
     discrete = rng.random() < 0.3
@@ -179,6 +228,11 @@ def expected_cells(name, m, precision):
     return out
 
 
+def nan_key(loc):
+    """Location tuples with nan made comparable (nan != nan; which nan it is is not asserted)."""
+    return tuple("nan" if x != x else x for x in loc)
+
+
 def cell_ok(exp, got):
     if isinstance(exp, tuple):
         try:
@@ -186,14 +240,14 @@ def cell_ok(exp, got):
                 return float(got) == exp[1]
             if exp[0] == "floats":
                 vals = tuple(float(x) for x in got.split(",")) if got != "" else ()
-                return vals == tuple(exp[1])
+                return nan_key(vals) == nan_key(exp[1])
         except ValueError:
             return False
     return exp == got
 
 
-def check_dump(ctx, name, text, m, precision):
-    """(A) the dumped text states the rows of the model."""
+def check_dump(ctx, name, text, m, precision, form="kw"):
+    """(A) the dumped text states the rows of the model (`form`: how dump_text was called, for the message)."""
     ctx.count("dump-cells:" + name)
     header, rows = split_file(text)
     req, opt = SPEC[name]
@@ -206,8 +260,8 @@ def check_dump(ctx, name, text, m, precision):
         return None
     exp = expected_cells(name, m, precision)
     if len(rows) != len(exp):
-        ctx.violation(f"dump/{name}/row-count", f"dump_text wrote {len(rows)} {name} rows, table has {len(exp)}",
-                      {"text": text[:1500]})
+        ctx.violation(f"dump/{name}/row-count", f"dump_text [call form {form}] wrote {len(rows)} {name} rows, table "
+                      f"has {len(exp)}", {"text": text[:1500]})
         return None
     for j, (r, e) in enumerate(zip(rows, exp)):
         if len(r) < len(header):
@@ -222,8 +276,9 @@ def check_dump(ctx, name, text, m, precision):
             got = r[header.index(col)]
             if not cell_ok(want, got):
                 ctx.violation(f"dump/{name}/{col}",
-                              f"dump_text(precision={precision}) {name} row {j} column {col!r}: wrote {got!r}, "
-                              f"table row says {want!r}", {"row": r, "model": m.to_json()})
+                              f"dump_text(precision={precision}) [call form {form}] {name} row {j} column {col!r}: "
+                              f"wrote {got[:300]!r}, table row says {str(want)[:300]!r}",
+                              {"row": [x[:300] for x in r], "model": model_json(m)})
                 return None
     # normalised (header, rows) with rows cut to the header width
     return header, [r[:len(header)] for r in rows]
@@ -271,6 +326,9 @@ def diff_rows(name, exp, got):
     """First difference between two row lists -> (column, message) or None."""
     if len(exp) != len(got):
         return "row-count", f"{len(got)} rows, expected {len(exp)}"
+    if name == "individuals":
+        exp = [(fl, nan_key(loc), par, md) for fl, loc, par, md in exp]
+        got = [(fl, nan_key(loc), par, md) for fl, loc, par, md in got]
     for j, (e, g) in enumerate(zip(exp, got)):
         if e != g:
             for c, (a, b) in enumerate(zip(e, g)):
@@ -286,9 +344,15 @@ JUNK_NAMES = ["junk", "x", "ID", "Time", "flags2", "is sample", "meta data", "le
 JUNK_VALUES = ["", "0", "-1", "zz", "1.5", "a b", "é", "unknown", "A,B", " "]
 
 
+def _edge_sensitive(rows, ci):
+    """Does column ci hold a cell that an over-eager strip()/rstrip() of the line would damage?"""
+    return any(r[ci] == "" or r[ci] != r[ci].strip() for r in rows)
+
+
 def relayout(rng, name, header, rows, mode, drop=()):
-    """Re-render a dumped file.  mode: subset of {"permute", "junk"}; drop: optional columns to omit
-    (the `id` column is unknown to every parser, so it is dropped at random as well)."""
+    """Re-render a dumped file.  mode: subset of {"permute", "junk", "edge"}; drop: optional columns to omit
+    (the `id` column is unknown to every parser, so it is dropped at random as well).  "edge" moves a column
+    holding an empty / blank-padded cell to the very end or the very start of the line (when there is one)."""
     cols = [c for c in header if c not in drop]
     if "id" in cols and rng.random() < 0.5:
         cols.remove("id")
@@ -305,38 +369,96 @@ def relayout(rng, name, header, rows, mode, drop=()):
             layout.insert(rng.randint(0, len(layout)), (nm, [rng.choice(JUNK_VALUES) for _ in rows]))
     if "permute" in mode:
         rng.shuffle(layout)
+    where = None
+    if "edge" in mode and rows:
+        cand = [j for j, (c, vals) in enumerate(layout) if vals is None and c != "id" and _edge_sensitive(rows, src[c])]
+        if cand:
+            it = layout.pop(rng.choice(cand))
+            where = rng.choice(["last", "last", "first"])
+            if where == "last":
+                layout.append(it)
+            else:
+                layout.insert(0, it)
     new_header = [c for c, _ in layout]
     new_rows = []
     for j, r in enumerate(rows):
         new_rows.append([r[src[c]] if vals is None else vals[j] for c, vals in layout])
-    return new_header, new_rows
+    return new_header, new_rows, where
 
 
 # ----------------------------------------------------------------------------------- the case
 
-
-def dump_all(ts, precision):
-    bufs = {n: io.StringIO() for n in FILES}
-    kw = dict(bufs)
-    if precision is not None:
-        kw["precision"] = precision
-    ts.dump_text(**kw)
-    return {n: b.getvalue() for n, b in bufs.items()}
+DUMP_WEIGHTS = {"kw": 3, "pos": 3, "single": 2, "split": 2, "files": 1, "writeonly": 1, "kw+prov": 2, "cli": 1,
+                "pos-kw-mix": 2, "pickled": 1}
+LOAD_WEIGHTS = {"kw": 2, "pos": 3, "mixed-defaults": 3, "files": 1, "wrapped-bytes": 1, "pos-L-kw": 2,
+                "kw-shuffled": 2, "reread": 1}
+PARSE_WEIGHTS = {"std": 3, "defaults": 3, "pos": 3, "srckw": 2, "file": 1, "std-enc": 2}
 
 
-def load(files, L, **kw):
-    args = {n: io.StringIO(t) for n, t in files.items()}
-    return tskit.load_text(sequence_length=L, strict=True, base64_metadata=True, **args, **kw) \
-        if L is not None else tskit.load_text(strict=True, **args, **kw)
+def wchoice(rng, weights):
+    return rng.choices(list(weights), weights=list(weights.values()))[0]
+
+
+def model_json(m):
+    """Violation detail: the literal model unless it is huge (the case descriptor is the replay anyway)."""
+    if sum(len(getattr(m, n)) for n in FILES) > 400:
+        return {"note": "big model, replay the case", "rows": {n: len(getattr(m, n)) for n in FILES}}
+    return m.to_json()
+
+
+def dump_all(ctx, rng, ts, precision):
+    form = wchoice(rng, DUMP_WEIGHTS)
+    ctx.count("dump-form:" + form)
+    return form, X.dump_form(ts, precision, form, rng)
+
+
+def load(ctx, rng, files, L, form=None):
+    form = form or wchoice(rng, LOAD_WEIGHTS)
+    ctx.count("load-form:" + form)
+    return form, X.load_form(files, L, form, rng)
+
+
+def from_tables(tc):
+    """lib.tsk.from_tables for the seven tables compared here, reading every raw column ONCE
+    (lib.tsk.from_tables fetches a fresh copy of the column per row: quadratic, 20 % of this check's time)."""
+    m = RowModel(tc.sequence_length)
+    for n in FILES:
+        setattr(m, n, rows_from_columns(n, getattr(tc, n).asdict()))
+    return m
+
+
+def sorted_model(model):
+    """lib.model.sorted_copy without the deep copy (rows are immutable tuples; a third of the oracle's time went
+    into copying them): the documented TableCollection.sort order, ids of sites and mutation parents remapped."""
+    m = RowModel(model.L)
+    for n in ("nodes", "individuals", "populations"):
+        setattr(m, n, list(getattr(model, n)))
+    src = sorted_copy(_Shallow(model))
+    m.edges, m.sites, m.mutations, m.migrations = src.edges, src.sites, src.mutations, src.migrations
+    return m
+
+
+class _Shallow:
+    """Just enough of a RowModel for sorted_copy: copy() returns a shallow stand-in."""
+
+    def __init__(self, model):
+        self.__dict__.update({n: getattr(model, n) for n in ("L", "nodes", "edges", "sites", "mutations",
+                                                             "individuals", "populations", "migrations")})
+
+    def copy(self):
+        return _Shallow(self)
+
+    def time(self, u):
+        return self.nodes[u][1]
 
 
 def compare_loaded(ctx, how, ts2, exp_model, detail):
     """(B)/(C): the loaded tree sequence equals the expectation after the documented sort."""
-    E = sorted_copy(exp_model)
+    E = sorted_model(exp_model)
     G = from_tables(ts2.dump_tables())
     ok = True
     if G.L != E.L:
-        ctx.violation(f"{how}/sequence_length", f"sequence_length {G.L}, expected {E.L}", detail)
+        ctx.violation(f"{how}/sequence_length", f"sequence_length {G.L}, expected {E.L}", detail())
         ok = False
     for name in FILES:
         exp = getattr(E, name)
@@ -347,18 +469,17 @@ def compare_loaded(ctx, how, ts2, exp_model, detail):
         if name == "migrations":
             key = lambda g: (g[5], g[3], g[4], g[0], g[2])  # noqa: E731
             if [key(g) for g in got] != sorted(key(g) for g in got):
-                ctx.violation(f"{how}/migrations/order", f"migrations not in the documented sort order: {got}", detail)
+                ctx.violation(f"{how}/migrations/order", f"migrations not in the documented sort order: {got}", detail())
                 ok = False
             exp, got = sorted(exp), sorted(got)
         d = diff_rows(name, exp, got)
         if d is not None:
-            ctx.violation(f"{how}/{name}/{d[0]}", f"load_text [{how}] {name} {d[1]}", detail)
+            ctx.violation(f"{how}/{name}/{d[0]}", f"load_text [{how}] {name} {d[1]}"[:1800], detail())
             ok = False
     return ok
 
 
-def run_case(case, ctx):
-    rng, m = build(case)
+def input_features(ctx, m):
     for t in m.tags:
         ctx.feature(t)
     has = {n: len(getattr(m, n)) > 0 for n in FILES}
@@ -375,13 +496,30 @@ def run_case(case, ctx):
         ctx.feature("mutation-parent")
     if any(len(loc) == 0 for _, loc, _, _ in m.individuals) and any(len(loc) > 0 for _, loc, _, _ in m.individuals):
         ctx.feature("ragged-location")
+    if any(len(par) == 0 for _, _, par, _ in m.individuals) and any(len(par) > 0 for _, _, par, _ in m.individuals):
+        ctx.feature("ragged-parents")
+    if any(x != x or x in (float("inf"), float("-inf")) for _, loc, _, _ in m.individuals for x in loc):
+        ctx.feature("location:nan-or-inf")
+    if any(len(x[-1]) >= 57 for n in FILES for x in getattr(m, n)):
+        ctx.feature("metadata>=57-bytes")
+    if any(t is not None and len(repr(t)) >= 17 for *_, t, _ in m.mutations):
+        ctx.feature("mutation-time:17-digits")
+    if any(fl >= 2 ** 31 for fl, _, _, _ in m.individuals):
+        ctx.feature("individual-flags>=2^31")
+    return has
+
+
+def run_case(case, ctx):
+    rng, m = build(case)
+    has = input_features(ctx, m)
+    ctx.count("family:" + case["gen"])
     nontrivial = len(m.edges) > 0 and (len(m.sites) > 0 or has["individuals"] or has["migrations"])
     ctx.sig(m.signature(), nontrivial=nontrivial)
     if case["k"] < 2:
         ctx.sample({"case": case, "model": m.to_json()})
     ts = to_ts(m)
     pneed = needed_precision(m)
-    detail0 = {"model": m.to_json()}
+    detail0 = lambda **kw: dict(model=model_json(m), **kw)  # noqa: E731
 
     if case["gen"] == "lowprec":
         return run_lowprec(ctx, rng, m, ts, pneed)
@@ -392,14 +530,14 @@ def run_case(case, ctx):
     precision = rng.choice(choices)
     ctx.feature(f"precision:{'default' if precision is None else ('needed' if precision == pneed else 'larger')}")
     try:
-        texts = dump_all(ts, precision)
+        dform, texts = dump_all(ctx, rng, ts, precision)
     except Exception as e:  # dump_text must never fail on a valid tree sequence
-        ctx.violation("dump/raises", f"dump_text(precision={precision}) raised {type(e).__name__}: {e}", detail0)
+        ctx.violation("dump/raises", f"dump_text(precision={precision}) raised {type(e).__name__}: {e}", detail0())
         return
     peff = 6 if precision is None else precision
     parsed = {}
     for name in FILES:
-        parsed[name] = check_dump(ctx, name, texts[name], m, peff)
+        parsed[name] = check_dump(ctx, name, texts[name], m, peff, dform)
     if any(v is None for v in parsed.values()):
         return
 
@@ -410,39 +548,70 @@ def run_case(case, ctx):
 
     # ---- (B) plain round trip of the untouched text
     ctx.count("roundtrip")
+    for t in ("deco:repr-doubles", "deco:nondyadic-times", "deco:nondyadic-coords", "deco:wide-metadata"):
+        if t in m.tags:
+            ctx.count("roundtrip:" + t[5:])
+    lform = "?"
     try:
-        ts2 = load(texts, m.L)
+        lform, ts2 = load(ctx, rng, texts, m.L)
     except Exception as e:
         ctx.violation("roundtrip/load-raises",
                       f"load_text(dump_text(ts, precision={precision})) raised {type(e).__name__}: {e}",
-                      {"model": m.to_json(), "texts": {k: v[:800] for k, v in texts.items()}})
+                      {"model": model_json(m), "texts": {k: v[:800] for k, v in texts.items()}})
         ts2 = None
     if ts2 is not None:
-        compare_loaded(ctx, "roundtrip", ts2, exp_full, {"model": m.to_json(), "precision": precision})
+        compare_loaded(ctx, "roundtrip", ts2, exp_full,
+                       lambda: {"model": model_json(m), "precision": precision, "dump_form": dform, "load_form": lform})
     # sequence length inferred from the edges (documented: maximum right coordinate)
-    if m.edges and max(e[1] for e in m.edges) == m.L:
-        ctx.count("roundtrip:inferred-length")
+    maxr = max((e[1] for e in m.edges), default=None)
+    if maxr is None:
+        # "useful in degenerate situations (such as when there are zero edges)": without it nothing is promised
         try:
-            ts3 = load(texts, 0 if rng.random() < 0.5 else None)
-            compare_loaded(ctx, "inferred-length", ts3, exp_full, detail0)
+            load(ctx, rng, texts, rng.choice([0, None]), "kw")
+            ctx.feature("zero-edges-no-length:returned")
+        except Exception:
+            ctx.feature("zero-edges-no-length:raised")
+    elif case["gen"] == "big":
+        pass  # nothing a big input adds to the inference; its three-digit ids go through (B) and (C)
+    elif maxr == m.L or (all(s[0] < maxr for s in m.sites) and all(g[1] <= maxr for g in m.migrations)):
+        ctx.count("roundtrip:inferred-length")
+        exp_inf = exp_full
+        if maxr < m.L:
+            ctx.count("roundtrip:inferred-length-below-L")
+            exp_inf = exp_full.copy()
+            exp_inf.L = maxr
+        try:
+            _, ts3 = load(ctx, rng, texts, 0 if rng.random() < 0.5 else None)
+            compare_loaded(ctx, "inferred-length", ts3, exp_inf, detail0)
         except Exception as e:
             ctx.violation("inferred-length/load-raises", f"load_text without sequence_length raised "
-                          f"{type(e).__name__}: {e}", detail0)
+                          f"{type(e).__name__}: {e}", detail0())
 
     # ---- (C) layouts, through load_text and through every parse_* function
-    for rep in range(3):
-        mode = rng.choice([("permute",), ("junk",), ("permute", "junk"), (), ("permute", "junk")])
+    nrep = 1 if case["gen"] == "big" else 3
+    for rep in range(nrep):
+        mode = rng.choice([("permute",), ("junk",), ("permute", "junk"), (), ("permute", "junk"),
+                           ("permute", "edge"), ("edge",), ("junk", "edge")])
         files = {}
         kept = {}
         dropped_desc = []
+        # an individuals file can only be left out when the nodes file has no individual column: decide first
+        r_omit = rng.random()
+        if not m.nodes and rep == 0:
+            r_omit = 0.55  # an empty node table and no populations file: the back-fill has nothing to look at
+        omit_inds = 0.4 <= r_omit < 0.5 and rep > 0
         for name in FILES:
             header, rows = parsed[name]
             opt = SPEC[name][1]
-            drop = [c for c in opt if rng.random() < (0.35 if rep else 0.0)]
-            nh, nr = relayout(rng, name, header, rows, mode, drop)
+            drop = [c for c in opt if rng.random() < (0.35 if rep or nrep == 1 else 0.0)]
+            if omit_inds and name == "nodes" and "individual" not in drop:
+                drop.append("individual")
+            nh, nr, where = relayout(rng, name, header, rows, mode, drop)
+            if where:
+                ctx.feature("layout:blank-cell-column-" + where)
             files[name] = render(nh, nr)
             kept[name] = [c for c in full[name] if c not in drop]
-            rt = relaxed_text(rng, nh, nr)
+            rt = relaxed_text(rng, nh, nr) if case["gen"] != "big" else None
             if rt is not None and nr:
                 run_parser(ctx, rng, name, rt, expect_rows(name, m, kept[name]), mode, kept[name], m, relaxed=True)
             dropped_desc += [f"{name}.{c}" for c in drop]
@@ -455,7 +624,7 @@ def run_case(case, ctx):
         expm = RowModel(m.L)
         for n in FILES:
             setattr(expm, n, expect_rows(n, m, kept[n]))
-        r = rng.random()
+        r = r_omit
         omitted = []
         if r < 0.15:
             omitted = ["mutations"]
@@ -468,6 +637,9 @@ def run_case(case, ctx):
         elif r < 0.6:
             # documented convenience: populations referenced by nodes are created when the file is absent
             omitted = ["populations", "migrations"]
+        elif r < 0.65 and all(max(g[3], g[4]) <= max([x[2] for x in expm.nodes], default=NULL) for g in m.migrations):
+            # ... and migrations between the populations created that way stay loadable
+            omitted = ["populations"]
         for n in omitted:
             del sel[n]
             setattr(expm, n, [])
@@ -475,19 +647,24 @@ def run_case(case, ctx):
             mx = max([x[2] for x in expm.nodes], default=NULL)
             expm.populations = [(b"",)] * (mx + 1)
             ctx.count("population-backfill")
+            if not expm.nodes:
+                ctx.feature("population-backfill:zero-nodes")
+            elif mx == NULL:
+                ctx.feature("population-backfill:no-node-has-a-population")
         ctx.count("layout:load_text")
         for c in dropped_desc:
             ctx.feature("dropped:" + c)
         for n in omitted:
             ctx.feature("file-omitted:" + n)
-        detail = {"model": m.to_json(), "mode": mode, "dropped": dropped_desc, "omitted": omitted,
-                  "files": {k: v[:600] for k, v in sel.items()}}
+        lform = "?"
+        detail = lambda: {"model": model_json(m), "mode": mode, "dropped": dropped_desc, "omitted": omitted,  # noqa: E731
+                          "load_form": lform, "files": {k: v[:600] for k, v in sel.items()}}
         try:
-            ts4 = load(sel, m.L)
+            lform, ts4 = load(ctx, rng, sel, m.L)
         except Exception as e:
             ctx.violation("layout/load-raises",
                           f"load_text raised {type(e).__name__}: {e} on files with layout {mode}, "
-                          f"dropped optional columns {dropped_desc}, omitted files {omitted}", detail)
+                          f"dropped optional columns {dropped_desc}, omitted files {omitted}", detail())
             continue
         # mechanism-named keys: which transformation was active
         tag = "+".join(mode) or "plain"
@@ -511,40 +688,46 @@ def relaxed_text(rng, header, rows):
 
 
 def run_parser(ctx, rng, name, text, exp, mode, kept, m, relaxed=False):
-    fn = getattr(tskit, PARSERS[name])
     ctx.count(("parse-relaxed:" if relaxed else "parse:") + name)
-    kw = {"strict": not relaxed}
-    if name != "edges":
-        kw["base64_metadata"] = True
-        if rng.random() < 0.5:
-            kw["encoding"] = "utf8"
+    form = wchoice(rng, PARSE_WEIGHTS)
+    ctx.count("parse-form:" + form)
     pre = []
-    if rng.random() < 0.3:
+    table = None
+    twice = False
+    r = rng.random()
+    if r < 0.3:
         # documented: "If specified write into this table" -> rows are appended
         if rng.random() < 0.4 and exp:
             pre = exp[:1]
         mm = RowModel(1.0)
         setattr(mm, name, list(pre))
-        kw["table"] = getattr(to_tables(mm), name)
-    detail = {"text": text[:1200], "kept": kept, "mode": mode}
+        table = getattr(to_tables(mm), name)          # a table owned by a TableCollection (as load_text passes)
+        if rng.random() < 0.3:
+            table = table.copy()                      # a free-standing table
+        twice = rng.random() < 0.3
+    detail = {"text": text[:1200], "kept": kept, "mode": mode, "form": form}
     try:
-        table = fn(io.StringIO(text), **kw)
+        res = X.parse_form(name, text, form, not relaxed, table, rng)
+        if twice:
+            # the same table object written a second time: the rows are appended again
+            ctx.count("parse:same-table-twice")
+            X.parse_form(name, text, form, not relaxed, table, rng)
     except Exception as e:
-        ctx.violation(f"parse{'-relaxed' if relaxed else ''}/{name}/raises", f"{PARSERS[name]} raised {type(e).__name__}: {e} on layout {mode} "
+        ctx.violation(f"parse{'-relaxed' if relaxed else ''}/{name}/raises",
+                      f"{PARSERS[name]} [call form {form}] raised {type(e).__name__}: {e} on layout {mode} "
                       f"with columns {kept}", detail)
         return
-    if "table" in kw:
-        table = kw["table"]  # documented: rows are written into the given table (return value left open)
-    tc2 = tskit.TableCollection(1)
-    getattr(tc2, name).replace_with(table)
-    got = getattr(from_tables(tc2), name)
-    d = diff_rows(name, pre + exp, got)
+    if table is None:
+        table = res  # with table= given, rows are written into the given table (return value left open)
+    got = rows_from_columns(name, table.asdict())  # raw columns of the returned / given table
+    d = diff_rows(name, pre + exp + (exp if twice else []), got)
     if d is not None:
         how = "+".join(mode) or "plain"
         missing = [c for c in SPEC[name][1] if c not in kept]
         if missing:
             how += "+dropped"
-        ctx.violation(f"parse{'-relaxed' if relaxed else ''}/{name}/{d[0]}", f"{PARSERS[name]} [{how}; omitted columns {missing}] {d[1]}", detail)
+        ctx.violation(f"parse{'-relaxed' if relaxed else ''}/{name}/{d[0]}",
+                      f"{PARSERS[name]} [{how}; call form {form}; omitted columns {missing}] {d[1]}"[:1800], detail)
 
 
 def run_lowprec(ctx, rng, m, ts, pneed):
@@ -552,18 +735,20 @@ def run_lowprec(ctx, rng, m, ts, pneed):
     if pneed == 0:
         ctx.count("trivial_cases")
         return
-    p = rng.randrange(0, pneed)
+    p = pneed - 1 if rng.random() < 0.5 else rng.randrange(0, pneed)  # one digit short: the exact boundary
     ctx.feature("precision:insufficient")
+    if p == pneed - 1:
+        ctx.feature("precision:one-digit-short")
     try:
-        texts = dump_all(ts, p)
+        dform, texts = dump_all(ctx, rng, ts, p)
     except Exception as e:
         ctx.violation("dump/raises", f"dump_text(precision={p}) raised {type(e).__name__}: {e}", {"model": m.to_json()})
         return
     for name in FILES:
-        check_dump(ctx, name, texts[name], m, p)
+        check_dump(ctx, name, texts[name], m, p, dform)
     ctx.count("lowprec")
     try:
-        ts2 = load(texts, m.L)
+        _, ts2 = load(ctx, rng, texts, m.L)
     except (tskit.LibraryError, ValueError):
         ctx.feature("lowprec:rejected")
         return
